@@ -14,6 +14,7 @@ var commonAssumptions = []string{
 }
 
 func planFor(prop, tier string) *Plan {
+	quickTier = tier != "thorough"
 	switch prop {
 	case "C06":
 		return planC06(tier)
@@ -290,9 +291,17 @@ func init() {
 
 var planRegistry = map[string]func(tier string) *Plan{}
 
+// quickTier: the quick plans leave out the recovery messages that carry prepare responses (four
+// split jobs of 150-250 s each); they stay in the thorough plans.
+var quickTier bool
+
 func recCells(roles, amevs, reqs []int) []cellSpec {
 	var cs []cellSpec
-	for _, ex := range []map[string]int{{"rreq": 1}, {"rresp": 1}, {"rcv": 1}, {"rc": 1}, {"rpc": 1}} {
+	cats := []map[string]int{{"rreq": 1}, {"rresp": 1}, {"rcv": 1}, {"rc": 1}, {"rpc": 1}}
+	if quickTier {
+		cats = []map[string]int{{"rreq": 1}, {"rcv": 1}, {"rc": 1}, {"rpc": 1}}
+	}
+	for _, ex := range cats {
 		am := amevs
 		if ex["rpc"] == 1 {
 			am = []int{1}
@@ -460,8 +469,9 @@ func planC11(tier string) *Plan {
 	)
 	// bookkeeping of requested transactions across view changes (what "requested" means later)
 	cells = append(cells, cellSpec{roles: []int{1}, amevs: am, reqs: []int{1}, tx: [][2]int{{1, 0}, {2, 1}}, apis: []int{apiChangeView, apiTimeout, apiPrepareResponse}})
-	cells = append(cells, recCells([]int{1, -1}, am, []int{0})...)
+	cells = append(cells, recCells([]int{1}, am, []int{0})...)
 	if tier == "thorough" {
+		cells = append(cells, recCells([]int{-1}, am, []int{0})...)
 		cells = append(cells, cellSpec{roles: []int{2, 3}, amevs: am, maxs: []int{0, 1}, reqs: []int{0, 1}, apis: allApis})
 		cells = append(cells, recCells([]int{0, 2}, am, []int{0, 1})...)
 	}
@@ -488,12 +498,14 @@ func planC12(tier string) *Plan {
 		{roles: roles, amevs: am, reqs: []int{1}, tx: [][2]int{{1, 0}, {2, 1}}, apis: []int{apiTransaction}, extra: map[string]int{"lasttx": 1, "mdup": 1}},
 		// the view change and the next proposal inside the same call: a cached next-view proposal
 		{roles: roles, amevs: am, reqs: []int{1}, tx: [][2]int{{1, 0}}, apis: []int{apiTransaction}, extra: map[string]int{"lasttx": 1, "ncache": 1, "ctype0": apiPrepareRequest, "csame": 1, "mntx": 1}},
-		{roles: roles, amevs: am, reqs: []int{1}, tx: [][2]int{{1, 0}}, apis: []int{apiTransaction}, extra: map[string]int{"lasttx": 1, "ncache": 1, "ctype0": apiPrepareRequest, "csame": 1, "mntx": 2}},
 		// Inv 7 (every proposed-but-absent hash stays requestable) under the other APIs that touch the lists
 		{roles: roles, amevs: am, reqs: []int{0}, apis: []int{apiPrepareRequest}, extra: map[string]int{"mntx": 2}},
 		{roles: roles, amevs: am, reqs: []int{1}, tx: [][2]int{{1, 0}}, apis: []int{apiChangeView, apiTimeout, apiPrepareResponse}},
 	}
-	cells = append(cells, cellSpec{roles: roles, amevs: am, reqs: []int{0}, apis: []int{apiRecoveryMessage}, extra: map[string]int{"rreq": 1, "mntx": 1}})
+	if tier == "thorough" {
+		cells = append(cells, cellSpec{roles: roles, amevs: am, reqs: []int{1}, tx: [][2]int{{1, 0}}, apis: []int{apiTransaction}, extra: map[string]int{"lasttx": 1, "ncache": 1, "ctype0": apiPrepareRequest, "csame": 1, "mntx": 2}})
+		cells = append(cells, cellSpec{roles: roles, amevs: am, reqs: []int{0}, apis: []int{apiRecoveryMessage}, extra: map[string]int{"rreq": 1, "mntx": 1}})
+	}
 	p := stepPlan("C12", tier, want, cells, 900)
 	p.MustCover = []string{"C12.O2.last", "step.end", "event.broadcast.prepareresponse", "event.broadcast.changeview"}
 	p.MustAssert = []string{"C12.O2.answered", "INV"}
@@ -695,8 +707,11 @@ func planC09(tier string) *Plan {
 		{roles: roles, amevs: am, reqs: []int{0, 1}, apis: []int{apiRecoveryRequest, apiChangeView}},
 		{roles: []int{1, 2}, amevs: am, reqs: []int{1}, apis: []int{apiRecoveryRequest}, extra: map[string]int{"watch": 1}},
 		// L3 a recovery message from any view is processed at once
-		{roles: []int{1, -1}, amevs: am, reqs: []int{0, 1}, apis: []int{apiRecoveryMessage}, extra: map[string]int{"rcv": 1}},
-		{roles: []int{1}, amevs: am, reqs: []int{0}, apis: []int{apiRecoveryMessage}, extra: map[string]int{"rreq": 1}},
+		{roles: []int{1, -1}, amevs: am, reqs: []int{0}, apis: []int{apiRecoveryMessage}, extra: map[string]int{"rcv": 1}},
+	}
+	if tier == "thorough" {
+		cells = append(cells, cellSpec{roles: []int{1, -1}, amevs: am, reqs: []int{1}, apis: []int{apiRecoveryMessage}, extra: map[string]int{"rcv": 1}},
+			cellSpec{roles: []int{1}, amevs: am, reqs: []int{0}, apis: []int{apiRecoveryMessage}, extra: map[string]int{"rreq": 1}})
 	}
 	p := stepPlan("C09", tier, want, cells, 900)
 	for _, e := range []string{"distinctviews", "range", "quorum"} {
